@@ -90,6 +90,61 @@ def g(a=1, flag=False):
 BLANK_DOC_FUNC_SRC = 'def blank(gamma=3, delta=4):\n    """   """\n    return gamma\n'
 BLANK_DOC_CLASS_SRC = 'class Blank(object):\n    """"""\n    alpha: int = 1\n    beta: str = "b"\n'
 
+POSONLY_METHOD_SRC = '''
+class P(object):
+    def m(self, /, a, b=5, *, k=1):
+        """
+        Summary line
+
+        :param a: the a
+        :param b: the b
+        :param k: the k
+        """
+        return a
+'''
+
+INIT_STRING_ANN_CLASS_SRC = '''
+class Node(object):
+    """
+    A node
+
+    :cvar parent: the parent
+    :cvar weight: the weight
+    """
+
+    def __init__(self, parent: "Node" = None, weight: "float" = 1.0):
+        """
+        init doc
+
+        :param parent: the parent
+        :param weight: the weight
+        """
+        self.parent = parent
+'''
+
+LAMBDA_FUNC_SRC = '''
+def g(a, b=5):
+    """
+    Summary line
+
+    :param a: the a
+    :type a: ```int```
+
+    :param b: the b
+    :type b: ```int```
+
+    :returns: the result
+    :rtype: ```int```
+    """
+    total = a + b
+    scale = lambda b: b * 2
+
+    def inner(a):
+        return a + total
+
+    return scale(total) + inner(b)
+'''
+
 STRING_ANN_CLASS_SRC = '''
 class Lazy(object):
     """
@@ -255,6 +310,7 @@ def initial_objects(tier):
     out.append(("ir.from_function_return_none", "ir", parsed(RETURN_NONE_SRC, parse.function)))
     out.append(("ir.from_blank_docstring_function", "ir", parsed(BLANK_DOC_FUNC_SRC, parse.function)))
     out.append(("ir.from_blank_docstring_class", "ir", parsed(BLANK_DOC_CLASS_SRC, parse.class_)))
+    out.append(("ir.from_function_with_lambda", "ir", parsed(LAMBDA_FUNC_SRC, parse.function)))
     out.append(("ir.from_class", "ir", parsed(CLASS_SRC, parse.class_)))
     out.append(("ir.from_argparse_with_body", "ir", parsed(ARGPARSE_SRC, parse.argparse_ast)))
     out.append(("ast.function", "ast:function", lambda: ast.parse(FUNC_SRC).body[0]))
@@ -262,6 +318,9 @@ def initial_objects(tier):
     out.append(("ast.class", "ast:class", lambda: ast.parse(CLASS_SRC).body[0]))
     out.append(("ast.class_with_method", "ast:class", lambda: ast.parse(METHOD_SRC).body[0]))
     out.append(("ast.class_string_annotations", "ast:class", lambda: ast.parse(STRING_ANN_CLASS_SRC).body[0]))
+    out.append(("ast.class_init_string_annotations", "ast:class", lambda: ast.parse(INIT_STRING_ANN_CLASS_SRC).body[0]))
+    out.append(("ast.method_posonly_receiver", "ast:function", lambda: ast.parse(POSONLY_METHOD_SRC).body[0].body[0]))
+    out.append(("ast.class_with_posonly_method", "ast:class", lambda: ast.parse(POSONLY_METHOD_SRC).body[0]))
     out.append(("ast.argparse", "ast:argparse", lambda: ast.parse(ARGPARSE_SRC).body[0]))
     return out
 
